@@ -3,64 +3,78 @@
 //! `kani::any()` values, so the same code runs natively during concrete playback.
 #![allow(static_mut_refs)]
 use std::borrow::Borrow;
+macro_rules! global { ($name:ident, $set:ident, $get:ident, $t:ty, $init:expr) => {
+    static mut $name: $t = $init;
+    /// setter/getter live in the defining crate: Kani mis-handles writes to another crate's `static mut`
+    pub fn $set(v: $t) { unsafe { $name = v; } }
+    pub fn $get() -> $t { unsafe { $name } }
+} }
 
 // ------------------------------------------------------------------------------------------ VecMap (R4)
 /// Finite map with the subset of `std::collections::HashMap`'s API that passage uses. Semantics: at most one
-/// entry per key; `insert` replaces; iteration order = insertion order (harnesses that care about order
-/// dependence permute their inputs).
+/// entry per key; `insert` replaces; iteration order = slot order. Storage is a fixed inline array of CAP slots
+/// (no heap: heap-backed vectors of structs made CBMC's array theory explode); inserting a (CAP+1)-th distinct key
+/// is a harness-bound violation and panics.
+pub const CAP: usize = 4;
 #[derive(Clone, Debug, PartialEq, Eq)]
-pub struct VecMap<K, V> { pub entries: Vec<(K, V)> }
-impl<K, V> Default for VecMap<K, V> { fn default() -> Self { VecMap { entries: Vec::new() } } }
-pub enum Entry<'a, K, V> { Occupied(&'a mut V), Vacant(&'a mut Vec<(K, V)>, K) }
+pub struct VecMap<K, V> { pub slots: [Option<(K, V)>; CAP] }
+impl<K, V> Default for VecMap<K, V> { fn default() -> Self { VecMap { slots: [None, None, None, None] } } }
+pub enum Entry<'a, K, V> { Occupied(&'a mut (K, V)), Vacant(&'a mut Option<(K, V)>, K) }
 impl<'a, K, V> Entry<'a, K, V> {
     pub fn or_insert(self, default: V) -> &'a mut V {
         match self {
-            Entry::Occupied(v) => v,
-            Entry::Vacant(vec, k) => { vec.push((k, default)); let n = vec.len() - 1; &mut vec[n].1 }
+            Entry::Occupied(e) => &mut e.1,
+            Entry::Vacant(slot, k) => { *slot = Some((k, default)); match slot { Some(e) => &mut e.1, None => unreachable!() } }
         }
     }
 }
 impl<K: Eq, V> VecMap<K, V> {
-    pub fn new() -> Self { VecMap { entries: Vec::new() } }
-    pub fn len(&self) -> usize { self.entries.len() }
-    pub fn is_empty(&self) -> bool { self.entries.is_empty() }
+    pub fn new() -> Self { Self::default() }
+    pub fn len(&self) -> usize { let mut n = 0; let mut i = 0; while i < CAP { if self.slots[i].is_some() { n += 1; } i += 1; } n }
+    pub fn is_empty(&self) -> bool { self.len() == 0 }
     fn pos<Q: ?Sized + Eq>(&self, k: &Q) -> Option<usize> where K: Borrow<Q> {
         let mut i = 0;
-        while i < self.entries.len() { if self.entries[i].0.borrow() == k { return Some(i); } i += 1; }
+        while i < CAP { if let Some(e) = &self.slots[i] { if e.0.borrow() == k { return Some(i); } } i += 1; }
         None
     }
+    fn free(&self) -> usize {
+        let mut i = 0;
+        while i < CAP { if self.slots[i].is_none() { return i; } i += 1; }
+        panic!("verif_env::VecMap: more than CAP distinct keys (harness bound)")
+    }
     pub fn get<Q: ?Sized + Eq>(&self, k: &Q) -> Option<&V> where K: Borrow<Q> {
-        match self.pos(k) { Some(i) => Some(&self.entries[i].1), None => None }
+        match self.pos(k) { Some(i) => match &self.slots[i] { Some(e) => Some(&e.1), None => None }, None => None }
     }
     pub fn get_mut<Q: ?Sized + Eq>(&mut self, k: &Q) -> Option<&mut V> where K: Borrow<Q> {
-        match self.pos(k) { Some(i) => Some(&mut self.entries[i].1), None => None }
+        match self.pos(k) { Some(i) => match &mut self.slots[i] { Some(e) => Some(&mut e.1), None => None }, None => None }
     }
     pub fn contains_key<Q: ?Sized + Eq>(&self, k: &Q) -> bool where K: Borrow<Q> { self.pos(k).is_some() }
     pub fn insert(&mut self, k: K, v: V) -> Option<V> {
         match self.pos(&k) {
-            Some(i) => Some(std::mem::replace(&mut self.entries[i].1, v)),
-            None => { self.entries.push((k, v)); None }
+            Some(i) => match &mut self.slots[i] { Some(e) => Some(std::mem::replace(&mut e.1, v)), None => None },
+            None => { let i = self.free(); self.slots[i] = Some((k, v)); None }
         }
     }
     pub fn remove<Q: ?Sized + Eq>(&mut self, k: &Q) -> Option<V> where K: Borrow<Q> {
-        match self.pos(k) { Some(i) => Some(self.entries.remove(i).1), None => None }
+        match self.pos(k) { Some(i) => self.slots[i].take().map(|e| e.1), None => None }
     }
     pub fn entry(&mut self, k: K) -> Entry<'_, K, V> {
         match self.pos(&k) {
-            Some(i) => Entry::Occupied(&mut self.entries[i].1),
-            None => Entry::Vacant(&mut self.entries, k),
+            Some(i) => match &mut self.slots[i] { Some(e) => Entry::Occupied(e), None => unreachable!() },
+            None => { let i = self.free(); Entry::Vacant(&mut self.slots[i], k) }
         }
     }
     pub fn retain<F: FnMut(&K, &mut V) -> bool>(&mut self, mut f: F) {
         let mut i = 0;
-        while i < self.entries.len() {
-            let keep = { let e = &mut self.entries[i]; f(&e.0, &mut e.1) };
-            if keep { i += 1; } else { self.entries.remove(i); }
+        while i < CAP {
+            let keep = match &mut self.slots[i] { Some(e) => f(&e.0, &mut e.1), None => true };
+            if !keep { self.slots[i] = None; }
+            i += 1;
         }
     }
-    pub fn iter(&self) -> impl Iterator<Item = (&K, &V)> { self.entries.iter().map(|e| (&e.0, &e.1)) }
-    pub fn keys(&self) -> impl Iterator<Item = &K> { self.entries.iter().map(|e| &e.0) }
-    pub fn values(&self) -> impl Iterator<Item = &V> { self.entries.iter().map(|e| &e.1) }
+    pub fn iter(&self) -> impl Iterator<Item = (&K, &V)> { self.slots.iter().filter_map(|s| s.as_ref().map(|e| (&e.0, &e.1))) }
+    pub fn keys(&self) -> impl Iterator<Item = &K> { self.iter().map(|e| e.0) }
+    pub fn values(&self) -> impl Iterator<Item = &V> { self.iter().map(|e| e.1) }
 }
 impl<K: Eq, V> FromIterator<(K, V)> for VecMap<K, V> {
     fn from_iter<I: IntoIterator<Item = (K, V)>>(it: I) -> Self { let mut m = VecMap::new(); for (k, v) in it { m.insert(k, v); } m }
@@ -68,17 +82,16 @@ impl<K: Eq, V> FromIterator<(K, V)> for VecMap<K, V> {
 impl<K: Eq, V, const N: usize> From<[(K, V); N]> for VecMap<K, V> {
     fn from(a: [(K, V); N]) -> Self { a.into_iter().collect() }
 }
-impl<K, V> IntoIterator for VecMap<K, V> { type Item = (K, V); type IntoIter = std::vec::IntoIter<(K, V)>; fn into_iter(self) -> Self::IntoIter { self.entries.into_iter() } }
-impl<'a, K, V> IntoIterator for &'a VecMap<K, V> {
-    type Item = (&'a K, &'a V);
-    type IntoIter = std::iter::Map<std::slice::Iter<'a, (K, V)>, fn(&'a (K, V)) -> (&'a K, &'a V)>;
-    fn into_iter(self) -> Self::IntoIter { fn f<K, V>(e: &(K, V)) -> (&K, &V) { (&e.0, &e.1) } self.entries.iter().map(f as fn(&'a (K, V)) -> (&'a K, &'a V)) }
+impl<K, V> IntoIterator for VecMap<K, V> {
+    type Item = (K, V);
+    type IntoIter = std::iter::Flatten<std::array::IntoIter<Option<(K, V)>, CAP>>;
+    fn into_iter(self) -> Self::IntoIter { self.slots.into_iter().flatten() }
 }
-impl<K: serde::Serialize, V: serde::Serialize> serde::Serialize for VecMap<K, V> {
+impl<K: serde::Serialize + Eq, V: serde::Serialize> serde::Serialize for VecMap<K, V> {
     fn serialize<S: serde::Serializer>(&self, s: S) -> Result<S::Ok, S::Error> {
         use serde::ser::SerializeMap;
-        let mut m = s.serialize_map(Some(self.entries.len()))?;
-        for (k, v) in &self.entries { m.serialize_entry(k, v)?; }
+        let mut m = s.serialize_map(Some(self.len()))?;
+        for (k, v) in self.iter() { m.serialize_entry(k, v)?; }
         m.end()
     }
 }
@@ -100,12 +113,12 @@ impl<'de, K: serde::Deserialize<'de> + Eq, V: serde::Deserialize<'de>> serde::De
 
 // ------------------------------------------------------------------------------------------ wall clock (R5)
 /// Model wall clock in whole seconds since the Unix epoch; the harness sets it (symbolic) and may advance it.
-pub static mut WALL_SECS: u64 = 0;
-pub static mut WALL_READS: u32 = 0;
+global!(WALL_SECS, set_wall_secs, wall_secs, u64, 0);
+global!(WALL_READS, set_wall_reads, wall_reads, u32, 0);
 pub fn system_now() -> std::time::SystemTime {
     unsafe { WALL_READS += 1; std::time::UNIX_EPOCH + std::time::Duration::from_secs(WALL_SECS) }
 }
 
 // ------------------------------------------------------------------------------------------ uuid v4 source
-pub static mut UUID_SOURCE: u128 = 0;
+global!(UUID_SOURCE, set_uuid_source, uuid_source, u128, 0);
 pub fn new_uuid_v4() -> uuid::Uuid { unsafe { uuid::Uuid::from_u128(UUID_SOURCE) } }
